@@ -1,6 +1,6 @@
 #!/bin/bash
 # like run_seeds.sh but leaves /repo alone: the patch is applied in the seed's own worktree and the checks import aquacrop from there
-root=${SEEDROOT:-/tmp/seed3}; out=$root/results.tsv; : > $out
+root=${SEEDROOT:?set SEEDROOT to a directory of <ID>/out/<k>/ seed folders with their own git worktrees}; out=$root/results.tsv; : > $out
 for d in $root/C*/out/*; do
   wt=${d%/out/*}; id=$(basename $wt); k=$(basename $d)
   cd $wt && git checkout -q -- . && git apply $d/patch.diff || { echo -e "$id\t$k\tAPPLYFAIL" >> $out; continue; }
